@@ -1,12 +1,7 @@
 """Convenience functions built on top of `make_vjp`."""
 
 from collections import OrderedDict
-from inspect import ismethod
-
-try:
-    from inspect import getfullargspec as _getargspec  # Python 3
-except ImportError:
-    from inspect import getargspec as _getargspec  # Python 2
+from inspect import signature
 import warnings
 
 import autograd.numpy as np
@@ -82,10 +77,13 @@ def holomorphic_grad(fun, x):
 def grad_named(fun, argname):
     """Takes gradients with respect to a named argument.
     Doesn't work on *args or **kwargs."""
-    argnames = _getargspec(fun).args
-    if ismethod(fun):
-        # a bound method is called without its first parameter
-        argnames = argnames[1:]
+    # the positional parameters the call takes: a bound method or a callable object is called
+    # without its `self`, a functools.partial without the arguments already supplied
+    argnames = [
+        p.name
+        for p in signature(fun).parameters.values()
+        if p.kind in (p.POSITIONAL_ONLY, p.POSITIONAL_OR_KEYWORD)
+    ]
     arg_index = argnames.index(argname)
     return grad(fun, arg_index)
 
